@@ -40,6 +40,10 @@ type MVersion struct {
 	// Birth is the op index at which this version id was (last) created: used by the
 	// immutability oracle to recognise a legitimately replaced null version.
 	Birth int
+	// RowSeq is the write sequence number at which the *row* holding this version was first
+	// created: a null version that is rewritten in place keeps it (the implementation keeps the
+	// row's created_at), a freshly inserted version has RowSeq == Seq.
+	RowSeq int
 	// From is the id of the version an append extended ("" if it created the object).
 	From string
 }
@@ -283,8 +287,12 @@ func (m *Model) write(b *MBucket, k string, nv *MVersion) *MVersion {
 	} else {
 		nv.VID = "null"
 		if old := b.Find(k, "null"); old != nil {
+			nv.RowSeq = old.RowSeq
 			b.remove(k, old)
 		}
+	}
+	if nv.RowSeq == 0 {
+		nv.RowSeq = nv.Seq
 	}
 	b.Keys[k] = append(b.Keys[k], nv)
 	return nv
